@@ -76,7 +76,7 @@ class IkeSaController:
 
         # if rekeyed, add the new IkeSa
         if (ike_sa.state in (IkeSa.State.REKEYED, IkeSa.State.DEL_AFTER_REKEY_IKE_SA_REQ_SENT)
-                and ike_sa.new_ike_sa not in self.ike_sas):
+                and ike_sa.new_ike_sa not in self.ike_sas and ike_sa.new_ike_sa.state != IkeSa.State.DELETED):
             self.ike_sas.append(ike_sa.new_ike_sa)
             logging.info(f'IKE SA={ike_sa.new_ike_sa} created by rekey. Count={len(self.ike_sas)}')
 
